@@ -159,6 +159,7 @@ class CopyWorld:
                 snaps += 1
                 op['kind'] = rng.choice(['deepcopy', 'deepcopy', 'pickle2', 'pickle3', 'pickle4', 'pickle5'])
                 op['inbatch'] = rng.random() < 0.2
+                op['inedit'] = rng.random() < 0.2
             if k == 'leaf':
                 op['p'] = rng.choice(['v', 'w'])
                 op['same'] = rng.random() < 0.1
@@ -246,6 +247,14 @@ class CopyWorld:
                 if op.get('inbatch'):
                     o.a = fresh()
                     out.stats['probe.snapshot_taken_inside_a_batch'] += 1
+                ec = None
+                if op.get('inedit'):
+                    # ... or inside edit_constant(the object), which has a Parameter object of its own for a constant: the copy
+                    # is as locked as the original will be once the block is left
+                    o.param['name']
+                    ec = param.parameterized.edit_constant(o)
+                    ec.__enter__()
+                    out.stats['probe.snapshot_taken_inside_edit_constant'] += 1
                 before = state_of(o)
                 try:
                     if op['kind'] == 'deepcopy':
@@ -253,6 +262,8 @@ class CopyWorld:
                     else:
                         c = pickle.loads(pickle.dumps(o, protocol=int(op['kind'][-1])))
                 except Exception as e:      # noqa
+                    if ec is not None:
+                        ec.__exit__(None, None, None)
                     cm.__exit__(None, None, None)
                     viol('C17.succeeds', step, f"{op['kind']} of a {K.__name__} with state {before} raised {type(e).__name__}: {str(e)[:160]}")
                     break
@@ -265,6 +276,19 @@ class CopyWorld:
                     snapped_interesting = True
                 got = state_of(c)
                 orig_after = state_of(o)
+                if ec is not None:
+                    ec.__exit__(None, None, None)
+                    locked = True
+                    try:
+                        c.name = 'renamed'
+                        locked = False
+                    except TypeError:
+                        pass
+                    if not locked or c.param.name.constant is not o.param.name.constant:
+                        viol('C17.equal', step, f"{op['kind']} taken inside edit_constant: once the block is left the original's name is constant again "
+                                                f"(flag {o.param.name.constant}), the copy's is not (flag {c.param.name.constant}, "
+                                                f"assignment {'accepted' if not locked else 'refused'})")
+                        break
                 cm.__exit__(None, None, None)
                 if got != before:
                     diff = {kk: (before[kk], got[kk]) for kk in before if before[kk] != got[kk]}
